@@ -97,6 +97,14 @@ def cases(tier, seed):
     d.update(GEOS[1])
     d.update({"int_line": True, "time": 0.25, "seed": seed, "nspecies": 2, "ghost": 2})
     out.append({"desc": d, "opts": [[True, False, True]], "source": "list", "schedules": False})
+    # seven levels towards the far corner, three species (ten state components): FAB header lines longer than 100 bytes
+    m = scope.deep_corner_mesh()
+    d = {"domain": m["domain"], "levels": m["levels"]}
+    d.update(GEOS[1])
+    L2 = scope.layouts(2, 'idrev')
+    d.update({"layouts": {"state": [None, L2[-1], None, L2[1], None, L2[2], L2[-1]], "gradp": [L2[1]] * 7, "I_R": [None] * 7},
+              "ghost": 2, "nspecies": 3, "time": 0.5, "seed": seed, "int_line": False})
+    out.append({"desc": d, "opts": [[True, True, True], [False, False, False]], "source": "ref_Y", "schedules": False, "w": 20})
     return out
 
 
